@@ -151,7 +151,8 @@ static void observe()
 	}
 	vf_assert(do_empty() == (g->m.cnt == 0), 42);
 	int n = 0; bool ok = true;
-	do_foreach([&](const Handle &, const Cb & cb) { if(n < g->m.cnt && (int)cb.slot != g->m.order[n]) ok = false; ++n; });
+	// the functor calls back into the same list / dispatcher: no lock may be held while it runs
+	do_foreach([&](const Handle & h, const Cb & cb) { if(n < g->m.cnt && (int)cb.slot != g->m.order[n]) ok = false; if(! do_owns(h)) ok = false; if(do_empty()) ok = false; ++n; });
 	vf_assert(n == g->m.cnt, 43); vf_assert(ok, 44);
 }
 
